@@ -257,7 +257,7 @@ crate::harnesses! {
 
     /// radix 8: "D.DDD…" with 24 symbolic digits (more than fit in 64 bits: reaches binary() halfway detection and slow_binary).
     /// @prop C05 C10
-    /// @tier thorough
+    /// @tier deep
     /// @mem 9
     /// @feat pow2 radix
     /// @bound radix 8, inputs of the shape [1-7].[0-7]{23}
@@ -271,7 +271,7 @@ crate::harnesses! {
 
     /// radix 16: 18 symbolic hex digits.
     /// @prop C05 C10
-    /// @tier thorough
+    /// @tier deep
     /// @mem 9
     /// @feat pow2 radix
     /// @bound radix 16, inputs of the shape [1-F].[0-F]{17}
@@ -282,7 +282,7 @@ crate::harnesses! {
 
     /// radix 32: 14 symbolic digits.
     /// @prop C05 C10
-    /// @tier thorough
+    /// @tier deep
     /// @mem 9
     /// @feat pow2 radix
     /// @bound radix 32, inputs of the shape [1-V].[0-V]{13}
